@@ -358,6 +358,7 @@ def mon_c13(script, res):
     cur = [0] * n
     pids = [0] * n
     open_reqs = {}      # req -> dict(kind, i, wait, state_at_req, forked, running_seen, kills)
+    open_all = {}       # req -> dict(kind, wait, processes seen RUNNING since the request)
     waited = set()
     for e in res['trace']:
         k = e[0]
@@ -367,6 +368,24 @@ def mon_c13(script, res):
             _, req, what, a, b = e
             if what in ('start', 'stop', 'signal') and 0 <= a < n:
                 open_reqs[req] = dict(kind=what, i=a, arg=b, st=cur[a], forked=False, running=False, kills=[], other=False)
+            if what in ('startall', 'stopall', 'startgroup', 'stopgroup'):
+                open_all[req] = dict(kind=what[:-3] if what.endswith('all') else what[:-5], wait=(a if what.endswith('all') else b),
+                                     ran=set())
+        elif k == 'ansall':
+            r = open_all.pop(e[1], None)
+            idx = [x[0] for x in e[2]]
+            if len(set(idx)) != len(idx):
+                return 'a group/all request answered with more than one entry for the same process: %r' % (e[2],)
+            if r is not None and r['wait'] == 1:
+                for (i, status) in e[2]:
+                    if not (0 <= i < n) or status != 80:
+                        continue
+                    if r['kind'] == 'stop' and cur[i] not in (0, 100, 200, 1000):
+                        return ('a stop request with wait=true answered SUCCESS for p%d while the process is in state %s: %r'
+                                % (i, cur[i], e[2]))
+                    if r['kind'] == 'start' and cur[i] != 20 and i not in r['ran']:
+                        return ('a start request with wait=true answered SUCCESS for p%d, which has not been RUNNING (state %s): %r'
+                                % (i, cur[i], e[2]))
         elif k == 'fork':
             for r in open_reqs.values():
                 if r['i'] == e[1]:
@@ -379,6 +398,9 @@ def mon_c13(script, res):
                 for r in open_reqs.values():
                     if r['i'] == e[1] and e[3] == 20:
                         r['running'] = True
+                if e[3] == 20:
+                    for r in open_all.values():
+                        r['ran'].add(e[1])
         elif k == 'kill':
             for r in open_reqs.values():
                 r['kills'].append(e)
@@ -399,6 +421,9 @@ def mon_c13(script, res):
                 else:
                     if r['forked'] and code not in (50, 40):
                         return 'startProcess(p%d) answered fault %s although it forked a child' % (r['i'], code)
+                    if code == 50 and r['forked'] and r['running']:
+                        return ('startProcess(p%d) answered SPAWN_ERROR although the child it forked stayed up and the '
+                                'process became RUNNING' % r['i'])
                     if code == 60 and r['st'] not in (10, 20, 30):
                         return 'ALREADY_STARTED for p%d in state %s' % (r['i'], r['st'])
             elif r['kind'] == 'stop':
@@ -620,6 +645,40 @@ def multi_scripts(U=2):
     return out
 
 
+def multi_inflight_scripts(U=2, quick=True):
+    """Group / all requests with wait=true over 2 and 3 processes whose deferred callbacks complete in every order:
+    the request, then every word of length 3 over {poll, child k exits then poll, time passes then poll}, for every
+    pattern of children ignoring the stop signal (stop requests) or fork failures (start requests)."""
+    out = []
+    for n in (2, 3):
+        steps = [('poll', [['poll']], 0)] + [('exit%d' % k, [['exit', k, 0], ['poll']], 0) for k in range(2)] + \
+                [('late', [['poll']], 3 * U)]
+        for kind in ('stop', 'start'):
+            confs = [mkconf(startsecs=1, stopwaitsecs=2, autostart=1 if kind == 'stop' else 0, autorestart=0, priority=5 - i, group=0)
+                     for i in range(n)]
+            groups = [{'priority': 1, 'procs': list(range(n))}]
+            reqs = [['rpc', 1, kind + 'all', 1], ['rpc', 1, kind + 'group', 0, 1], ['rpc', 1, kind + 'group', 0, 1, 1]]
+            for rq in reqs:
+                for pat in itertools.product((0, 1), repeat=n):
+                    if kind == 'start' and sum(pat) > 1:
+                        continue
+                    for word in itertools.product(steps, repeat=3 if quick else 4):
+                        ops = [{'now': 100, 'acts': []}, {'now': 100 + 2 * U, 'acts': []}]
+                        t = 100 + 3 * U
+                        op = {'now': t, 'acts': [list(rq)]}
+                        if kind == 'stop':
+                            op['killq'] = list(pat)                 # 1: the child ignores the stop signal
+                        else:
+                            op['forkq'] = [3 if b else 0 for b in pat]   # 3: fork fails for that process
+                        ops.append(op)
+                        for (_nm, acts, dt) in word:
+                            t += 1 + dt
+                            ops.append({'now': t, 'acts': [list(a) for a in acts]})
+                        ops.append({'now': t + 4 * U, 'acts': [['poll']]})
+                        out.append({'U': U, 'procs': confs, 'groups': groups, 'ops': ops})
+    return out
+
+
 def many_children_script(n=105, U=2):
     confs = [mkconf(startsecs=0, autorestart=0, group=0) for _ in range(n)]
     ops = [{'now': 10, 'acts': []}, {'now': 12, 'acts': []},
@@ -651,6 +710,9 @@ def gen_scripts(chk, which):
             for word in itertools.product(inflight, repeat=4 if quick else 5):
                 scripts.append((life_gen.script_from_word([c], [{'priority': 999, 'procs': [0]}],
                                                           (full['+1s'],) + word, U), 'inflight'))
+    if which == 'C13':
+        for s in multi_inflight_scripts(U, quick):
+            scripts.append((s, 'multi-inflight'))
     for s in multi_scripts(U):
         scripts.append((s, 'multi'))
     if which in ('C02', 'C06') or not quick:
